@@ -380,6 +380,24 @@ def _run_unit(spec: Spec, repo: Repo | None = None, timeout_s=20.0, want_smt2=Fa
         except Unsupported as e:
             res.unsupported = f"{e} (at {cx.loc})"
             pending.extend(cx.pending)
+            # The obligations raised BEFORE the construct the generator cannot interpret are genuine (preconditions of
+            # callee contracts, subscripts, divisions met on the way): they are decided; the unit as a whole stays
+            # UNDECIDED. Nothing is concluded from the part of the path that was not executed.
+            try:
+                from .interp import Obligation as _Ob
+                from .solve import build_query as _bq
+
+                pre = [ob for ob in cx.obls if ob.kind in ("pre", "index", "shape", "div")]
+                if pre:
+                    can = _Ob("canary", z3.BoolVal(False), tuple(cx.pc), cx.loc, "canary", tuple(cx.univ))
+                    hy, _g = _bq(can, V.AXIOMS)
+                    if check_sat(hy + list(V.AXIOMS)) == "sat" and not cx.ghost.get("havoc_attrs"):
+                        for ob in pre:
+                            v = discharge(ob, list(V.AXIOMS), timeout_s=timeout_s, want_smt2=want_smt2)
+                            if v.status == "refuted":
+                                res.obligations.append(ObRecord(spec.unit_name(), ob.label + " [met before the unit became undecided]", ob.kind, ob.loc, npath + 1, v))
+            except Unsupported:
+                pass
             break
         except Exception as e:  # noqa: BLE001
             # The generator or a contract's model object could not interpret this code shape. On the unchanged tree
